@@ -54,10 +54,10 @@ PROPS = {
         "assumptions": [],
     },
     "C06": {
-        "claim": "Decides GC6a–d and GC5: a new group only takes a slot tested empty by an unrestricted scan of all slots, a destroyed group's list is cleared on every returning path of the same call, the constructor installs non-empty sentinels at 0 and 1 and zeroed tables, and no other function touches the tables; with I1–I3 a slot is free iff its list is empty, for histories of any length. GC2: the loop that removes the members of a dying group is not left before the list is exhausted. LM: the tables provide the documented 14 groups of 16 members.",
+        "claim": "Decides GC6a–d and GC5: a new group only takes a slot tested empty by an unrestricted scan of all slots, a destroyed group's list is cleared on every returning path of the same call, the constructor installs non-empty sentinels at 0 and 1 and zeroed tables, and no other function touches the tables; with I1–I3 a slot is free iff its list is empty, for histories of any length. GC2: the loop that removes the members of a dying group is not left before the list is exhausted. GC3 (a first read marks the datum as read on every path) and GC4 (counter pairing) are run as premises: a counter that stays too high keeps a dead group's slot occupied. LM: the tables provide the documented 14 groups of 16 members.",
         "note": "Trusted: as C01; 'fewer than 14 groups alive' is the precondition under which the search succeeds.",
         "technique": 'MIR who-may-call + guard + post-dominance rules on the slot table',
-        "rules": [("GC5", G.gc5), ("GC6", functools.partial(G.gc6, parts="abcd")), ("GC2", G.gc2), ("GC4", G.gc4), ("LM", G.limits)],
+        "rules": [("GC5", G.gc5), ("GC6", functools.partial(G.gc6, parts="abcd")), ("GC2", G.gc2), ("GC3", G.gc3), ("GC4", G.gc4), ("LM", G.limits)],
         "explanation": "slot discipline: new groups take a slot checked empty over an unrestricted scan (GC6a), destruction clears "
                        "the list on all paths (GC6b), sentinels and zeroed tables in the constructor (GC6c), nobody else touches "
                        "the tables (GC6d), membership pairing (GC5); GC2/GC4 give I2 (a destroyed group's counter is 0 again).",
@@ -128,7 +128,7 @@ PROPS = {
         "assumptions": [],
     },
     "C08": {
-        "claim": "Decides the per-field and writer/reader clauses SZ1–SZ5, each a necessary condition of the round trip: the serialized-field inventory read from the derived impls' MIR is every field of Sodg and Vertex and every variant/payload of Hex, Label, Persistence, written unconditionally from the field itself and restored from the same position, the only omission being Sodg::next_v (omitted on both sides, rebuilt by Default); the ten impls are derived; save() serialises self whole and writes exactly those bytes to the path; load() decodes the whole file and returns that value unmodified; both use the same bincode configuration. Does not decide equality of behaviour under every continuation.",
+        "claim": "Decides the per-field and writer/reader clauses SZ1–SZ5, each a necessary condition of the round trip: the serialized-field inventory read from the derived impls' MIR is every field of Sodg and Vertex and every variant/payload of Hex, Label, Persistence, written unconditionally from the field itself and restored from the same position, the only omission being Sodg::next_v (omitted on both sides, rebuilt by Default); the ten impls are derived; save() serialises self whole and writes exactly those bytes to the path; load() decodes the whole file and returns that value unmodified, and produces no Err on a path on which the decode succeeded (an image save() wrote is not rejected afterwards); both use the same bincode configuration. Does not decide equality of behaviour under every continuation.",
         "note": "Trusted: rustc front end + engine; serde derive output semantics; bincode 1.3.3; the containers' Serialize/Deserialize pairs (read). Behavioural equivalence under all continuations is not decided.",
         "technique": "MIR inventory of derive-expanded serde impls + writer/reader agreement + provenance in save/load",
         "rules": [("SZ1", SZ.sz1), ("SZ2", SZ.sz2), ("SZ3-5", SZ.sz345)],
@@ -140,16 +140,16 @@ PROPS = {
         "claim": "Decides the sodg-side premises of the prefix argument (DESIGN C09): in load() the results of the file read and of the decode are only propagated (no unwrap/expect/ok()/unwrap_or*), the only Ok(..) returned is reached through their success edges and carries the value decoded from the complete byte vector, and every Deserialize in the closure of Sodg is derived with no field defaulted other than next_v (which consumes no input). With bincode's left-to-right slice reader (trusted) a proper prefix of a valid image then yields UnexpectedEof, i.e. Err.",
         "note": "Trusted: bincode 1.3.3 slice reader (every missing byte is UnexpectedEof, length prefixes checked before allocating) and the container visitors, as read; the hand argument 'prefix determinism ⇒ C09'.",
         "technique": "MIR error-discipline rule on load() + derived-impl inventory",
-        "rules": [("LD1/LD2", SZ.ld12), ("SZ1", SZ.sz1), ("SZ2", SZ.sz2), ("SZ4", SZ.sz345)],
+        "rules": [("LD1/LD2", SZ.ld12), ("SZ1", SZ.sz1), ("SZ2", SZ.sz2), ("SZ4", functools.partial(SZ.sz345, roundtrip=False))],
         "explanation": "LD1 results only propagated, LD2 single Ok through success edges, SZ1/SZ2 derived readers without defaulted fields, SZ4 whole-file decode.",
         "trusted": [RUSTC, "bincode 1.3.3 slice reader", CONTAINERS],
         "assumptions": [],
     },
     "C07": {
-        "claim": "Decides the sodg-side clause, in the conservative direction: no user-written unsafe block/fn/impl/extern block, raw pointer or transmute anywhere in the crate (HIR + MIR); every resolved callee in emap/micromap/microstack is outside the audited deny-list (uninitialised constructor, bitwise-reading iterators, *_unchecked, any unsafe fn), so each element access goes through an entry point that asserts its bound in a debug-assertion build; Stack::from_vec only on a literal of at most 16 elements; the locked checksums of the containers equal the audited ones; the element types for which the containers' bitwise reads are sound are unchanged; a graph built from the ids of another one (slice) gets that graph's vertex capacity. It can reject code that is in fact safe; it cannot accept code that leaves the checked API. Does not decide the containers' internals, release builds, or 'calls within the limits complete' (C02's no-panic clause). GC6c: the two group tables are created with the same size, so a group id valid for one is valid for the other. LM (exact): a member list holds exactly 16 vertices, so the 17th member of a group stops in microstack's push assertion, and the group tables have at least the documented 16 slots.",
+        "claim": "Decides the sodg-side clause, in the conservative direction: no user-written unsafe block/fn/impl/extern block, raw pointer or transmute anywhere in the crate (HIR + MIR); every resolved callee in emap/micromap/microstack is outside the audited deny-list (uninitialised constructor, bitwise-reading iterators, *_unchecked, any unsafe fn), so each element access goes through an entry point that asserts its bound in a debug-assertion build; Stack::from_vec only on a literal of at most 16 elements; the locked checksums of the containers equal the audited ones; the element types for which the containers' bitwise reads are sound are unchanged; a graph built from the ids of another one (slice) gets that graph's vertex capacity. It can reject code that is in fact safe; it cannot accept code that leaves the checked API. Does not decide the containers' internals, release builds, or 'calls within the limits complete' (C02's no-panic clause). GC6c: the two group tables are created with the same size, so a group id valid for one is valid for the other. RW1: bind() records an edge only through micromap's insert (which asserts room for a new key) or a checked_insert whose refusal is unwrapped, so the (N+1)-th label stops with a panic. LM (exact): a member list holds exactly 16 vertices, so the 17th member of a group stops in microstack's push assertion, and the group tables have at least the documented 16 slots.",
         "note": "Trusted: the audit of emap 0.0.13 / micromap 0.0.19 / microstack 0.0.7 by reading (DESIGN §3): bounds asserted under debug_assertions, push asserts in all builds. Claimed for debug-assertion builds only, as the property says.",
         "technique": "HIR/MIR unsafe scan + who-may-call deny-list over resolved callees + lockfile/type facts",
-        "rules": [("MS1", MS.ms1), ("MS2", MS.ms2), ("MS3", MS.ms3), ("MS4", MS.ms4), ("MS5", MS.ms5), ("MS6", MS.ms6), ("GC6c", functools.partial(G.gc6, parts="c")), ("LM", functools.partial(G.limits, exact=True)), ("MS2x", MS.ms_cross)],
+        "rules": [("MS1", MS.ms1), ("MS2", MS.ms2), ("MS3", MS.ms3), ("MS4", MS.ms4), ("MS5", MS.ms5), ("MS6", MS.ms6), ("RW1", functools.partial(RW.rw1, only_stop=True)), ("GC6c", functools.partial(G.gc6, parts="c")), ("LM", functools.partial(G.limits, exact=True)), ("MS2x", MS.ms_cross)],
         "explanation": "MS1 no unsafe, MS2 container deny-list over all resolved callees (floor 60 sites), MS3 from_vec literal, MS4 audited checksums, MS5 element types; thorough adds a clippy disallowed_methods cross-check.",
         "trusted": [RUSTC, CONTAINERS],
         "assumptions": ["debug-assertion builds"],
